@@ -208,7 +208,8 @@ class AutoLink(SpanToken):
         content = match.group(self.parse_group)
         self.children = (RawText(content),)
         self.target = content
-        self.mailto = '@' in self.target and 'mailto' not in self.target.casefold()
+        # an autolink without a scheme is an email address (the pattern admits nothing else)
+        self.mailto = ':' not in self.target
 
 
 class EscapeSequence(SpanToken):
